@@ -56,6 +56,10 @@ type fileEnt struct {
 type libRef struct {
 	Item string `json:"item"`
 	Hit  int    `json:"hit"` // 1-based index into mtls of the file the item names (relative to the OBJ), 0: no such file
+	// LineHit: the same for the items of the whole statement read as ONE file
+	// name with blanks in it (not what the format says; logged so that the
+	// specification can tell a name split at a blank from a wrong reference)
+	LineHit int `json:"linehit"`
 }
 
 type mtlFile struct {
@@ -231,15 +235,18 @@ func resolveLibs(stmts []ObjStmt, objRel string, mtls []mtlFile) []libRef {
 		if st.T != "mtllib" {
 			continue
 		}
-		for _, item := range st.L {
-			target := path.Join(path.Dir(objRel), filepath.ToSlash(item))
-			hit := 0
+		find := func(name string) int {
+			target := path.Join(path.Dir(objRel), filepath.ToSlash(name))
 			for i, m := range mtls {
 				if m.Rel == target {
-					hit = i + 1
+					return i + 1
 				}
 			}
-			out = append(out, libRef{Item: item, Hit: hit})
+			return 0
+		}
+		whole := find(strings.Join(st.L, " "))
+		for _, item := range st.L {
+			out = append(out, libRef{Item: item, Hit: find(item), LineHit: whole})
 		}
 	}
 	return out
